@@ -213,6 +213,26 @@ def check(run):
     else:
         run.holds('all other range obligations (%d productions)' % nprod, 'A', solver_s=tz, queries=nq, bound='unbounded integers')
 
+    # content evaluator (MIR of the user actions): every range endpoint is a position the grammar captured
+    try:
+        import mirror
+        An = mirror.Analysis(gen, mir.Program(mir.dump_mir()))
+        rv, nr = An.range_endpoints()
+        title = 'every endpoint of every Range a grammar action builds is a position captured by the grammar (`@L` / `@R`), never read out of a child node or computed (MIR of the %d user actions)' % len(An.results)
+        if An.unsupported:
+            run.inconclusive(title, 'A', 'action outside the evaluator: ' + An.unsupported[0])
+        elif rv:
+            for role, ws in sorted(rv.items()):
+                nb = None
+                for b in nbad:
+                    if b.get('field') in ('symbol_range', 'full_range') and ((b.get('node') == 'type') == role.split(':')[1].startswith('Type')):
+                        nb = b
+                run.violated(title, 'A', role, {'solver': ws[:2], 'native': nb}, nb is not None, queries=nr, detail=ws[0]['value'])
+        else:
+            run.holds(title, 'A', queries=nr, bound='all paths of all productions; %d ranges' % nr)
+    except (mir.Unsupported, RuntimeError) as e:
+        run.inconclusive('range endpoints (content evaluator)', 'A', str(e))
+
     # K: Range::new passes offsets through
     res = kani.run_many('C04', ['c01::c04_range_new_passes_offsets'], 300)
     r = res['c01::c04_range_new_passes_offsets']
